@@ -856,6 +856,12 @@ class IsoHybrid:
         padding = 0
         if frac > 0:
             padding = cylsize - frac
+        if self.efi:
+            # The backup GPT (partition array plus header) lives at the very
+            # end of the image, so the padding has to be able to hold it.
+            gpt_size = 512 + self.secondary_gpt.header.num_parts * self.secondary_gpt.header.size_of_partition_entries
+            while padding < gpt_size:
+                padding += cylsize
         cc = min((iso_size + padding) // cylsize, 1024)
 
         return (cc, padding)
@@ -879,10 +885,14 @@ class IsoHybrid:
         for i in range(1, 5):
             raw = b'\x00' * 16
             if i == self.part_entry:
-                cc = self._calc_cc(iso_size)[0]
+                (cc, padding) = self._calc_cc(iso_size)
                 esect = self.geometry_sectors + (((cc - 1) & 0x300) >> 2)
                 ecyle = (cc - 1) & 0xff
-                psize = cc * self.geometry_heads * self.geometry_sectors - self.part_offset
+                # The C/H/S fields cannot express more than 1024 cylinders, but
+                # the size in sectors covers the whole padded image.
+                psize = (iso_size + padding) // 512 - self.part_offset
+                if psize < 0:
+                    raise pycdlibexception.PyCdlibInvalidInput('The partition offset is beyond the end of the ISO')
                 raw = struct.pack('<BBBBBBBBLL', 0x80, self.bhead, self.bsect,
                                   self.bcyle, self.ptype, self.ehead, esect,
                                   ecyle, self.part_offset, psize)
